@@ -6,7 +6,7 @@ from .cbmcdrv import Undecided, VERIF
 
 REPO = os.environ.get('VERIF_REPO', '/repo')
 OUT = os.path.join(VERIF, 'out')
-EVID = os.path.join(VERIF, 'evidence')
+EVID = os.environ.get('VERIF_EVIDENCE_DIR') or os.path.join(VERIF, 'evidence')
 REPLAYS = os.path.join(VERIF, 'replays')
 KNOWN = os.path.join(VERIF, 'known_findings.txt')
 
@@ -276,13 +276,18 @@ def run_property(pid, cfg, tier='quick', seed=0, replayer=None):
                 outcome = {'verdict': 'bounded-confirmation', 'detail': bdesc}
             else:
                 outcome = {'verdict': 'undecided', 'detail': bdesc}
-        if replayer is not None:
+        if replayer is not None and top:
+            prior = outcome
             try:
-                outcome = replayer(pid, P, specs, r, failed, outdir)
+                ro = replayer(pid, P, specs, r, top, outdir)
             except Undecided as e:
-                outcome = {'verdict': 'undecided', 'detail': str(e)}
+                ro = {'verdict': 'replay-undecided', 'detail': str(e)}
             except Exception as e:
-                outcome = {'verdict': 'undecided', 'detail': 'replay machinery error: %s' % e}
+                ro = {'verdict': 'replay-undecided', 'detail': 'replay machinery error: %s' % e}
+            if ro is not None:
+                if prior:
+                    ro['confirmation'] = prior
+                outcome = ro
         name = re.sub(r'[^A-Za-z0-9_.-]', '_', '%s-%s-%s' % (pid, r.info.get('name', 'fn'), (top or failed)[0]['name']))
         path = os.path.join(REPLAYS, name + '.json')
         rep = {'property': pid, 'function': r.key, 'failed_obligations': [{k: o[k] for k in ('name', 'desc', 'class', 'status', 'location')} for o in failed],
